@@ -682,6 +682,23 @@ func (env *SpecEnv) evalCall(e *SExpr) *Value {
 				}
 			}
 			specFail("fieldContents: no field %s", e.Args[1].Name)
+		case "domOf", "valsOf":
+			// the key set / value map of a Go map as mathematical objects (nil map: empty)
+			x := arg(0)
+			m, ok := x.T.Underlying().(*types.Map)
+			if x.T == nil || !ok {
+				specFail("%s needs a Go map", name)
+			}
+			ks := keySort(m)
+			if name == "domOf" {
+				d := Ite(Eq(x.S, mkInt(0)), ConstArray(SArray(ks, SBool), TFalse), env.st.mapDom(m, x.S))
+				return &Value{K: VScalar, SpecKind: "set", T: types.Typ[types.Bool], S: d}
+			}
+			es, ok := scalarSort(m.Elem())
+			if !ok {
+				specFail("valsOf needs scalar map values")
+			}
+			return &Value{K: VScalar, SpecKind: "mmap", T: m.Elem(), S: env.st.loadLeaf(mapClass(m)+"#val", SArray(ks, es), x.S)}
 		case "zeros":
 			return &Value{K: VScalar, SpecKind: "mmap", T: types.Typ[types.Int], S: ConstArray(SArray(SInt, SInt), mkInt(0))}
 		case "contents":
